@@ -36,6 +36,8 @@ pub mod c10;
 pub mod c11;
 #[cfg(feature = "c13")]
 pub mod c13;
+#[cfg(feature = "c13b")]
+pub mod c13b;
 #[cfg(feature = "c14")]
 pub mod c14;
 #[cfg(feature = "c15")]
@@ -343,6 +345,10 @@ pub fn run_request(req: &str) -> String {
     #[cfg(feature = "c13")]
     {
         ans = ans.or_else(|| c13::run_request(cmd, &args));
+    }
+    #[cfg(feature = "c13b")]
+    {
+        ans = ans.or_else(|| c13b::run_request(cmd, &args));
     }
     #[cfg(feature = "c14")]
     {
